@@ -10,7 +10,7 @@ from ..tlc import run_tlc
 
 KINDS = ['int64', 'bigint', 'float', 'negzero', 'inf', 'nan', 'str', 'bytes', 'none', 'bool', 'container', 'stream']
 LENS = ['zero', 'below', 'at', 'above', 'big']
-FEATS = ['CR', 'LF', 'CRLF', 'NUL', 'U85', 'U2028', 'astral', 'surrogate']
+FEATS = ['CR', 'LF', 'CRLF', 'NUL', 'U85', 'U2028', 'astral', 'surrogate', 'BOM']
 
 
 def _run(thr, disk, proto, cases, seed, tid):
@@ -21,7 +21,7 @@ def value_cases(rng, tier):
     out = []
     for k in KINDS:
         if k in ('str',):
-            featsets = [[]] + [[f] for f in FEATS] + [['CR', 'LF'], ['CRLF', 'NUL'], ['astral', 'U2028', 'CR']]
+            featsets = [[]] + [[f] for f in FEATS] + [['CR', 'LF'], ['CRLF', 'NUL'], ['astral', 'U2028', 'CR'], ['BOM', 'LF']]
             if tier == 'thorough':
                 featsets += [list(c) for c in itertools.combinations(FEATS, 2)]
             for ln in LENS:
